@@ -1,4 +1,4 @@
-import PytaskProofs.Lemmas.EngineGraph
+import PytaskProofs.Lemmas.CrashGraph
 /-!
 From the *result* of a build (exit code 0, loop ran to its end) to the facts the convergence lemmas use: every report is
 SUCCESS or SKIP_UNCHANGED and every task was processed — for projects without skip markers and builds without selection or
